@@ -48,13 +48,31 @@ Second wave (pyorbital/orbital.py and the sqlite archive of tlefile.py):
                through `TimeOps`; a name rebound to a value of another type at the top level is a new Lean variable; an int
                is never silently turned into a float by an assignment
 
+Third wave (time representations: pyorbital/__init__.py, astronomy.py; `_get_max_parab`):
+  tagged       a parameter typed `npval` is a tagged numpy / datetime value `Np.Val F` of the prelude (datetime naive / aware,
+  values       datetime64 / timedelta64 scalar or array of a unit with its tick counts, float / int scalars and arrays,
+               dask arrays, object arrays, memoryview).  `isinstance(x, float | dt.datetime)`, `hasattr(x, "<literal>")`,
+               `np.datetime64(x)`, `np.datetime64("<literal>")`, `x.astype("<literal>")`, `np.asanyarray(x, dtype=np.timedelta64)`,
+               `np.datetime_data(x.dtype)[0]`, `np.timedelta64(k, "<unit>")`, `-`, `/`, `+`, `type(t)(x)`, `t.__class__(x)`,
+               `x.data`, `np.asarray(x, like=t)`, `x.tzinfo`, `x.replace(tzinfo=None)`, `dt.timezone.utc` are the prelude's
+               INTERPRETED operations (NP_PATTERNS; not parameters; checked against the running numpy by
+               harness/pytrans_selftest_np.py); an operation on a kind of value with no recorded behaviour is `Exc.unmodelled`
+  expressions  `a if c else b` (only the chosen operand is evaluated); `x in (<string literals>)`; `float(<float>)`; a call
+               of a parameter that is a callable (`fun(x)`: typed `fn`, may raise); a translated function of another module
+               (the name must be bound by exactly one `from pyorbital[.mod] import name`)
+  statements   `try: return e  except K: ...`; `while True:` (fuel; leaves only by return / raise; then `Exc.outOfFuel`);
+               `with np.errstate(invalid="raise"):` — every float `+ - * / **` inside the block goes through `Fp.*`:
+               FloatingPointError when the uninterpreted predicate `FloatInvalid` says numpy signals `invalid`
+               (comparisons, abs, min, max do not signal); `except FloatingPointError`
+
 Guards that keep the value semantics of the translation equal to Python's reference semantics (refusal otherwise):
   a local that may be unbound where it is read; a container that is changed in place while reachable under two names; a
   container parameter changed in place; a loop body that changes what the loop iterates over; a `try` body of more than
   one statement (assignments made before the exception would have to survive it); an `except K` where the body can raise a
   proper subclass of K; an `elif` test that may raise is nested into the else branch (a nested action in `else if` would be
-  evaluated too early); default arguments that are not literals; `*args` / `**kwargs`, decorators, lambda, comprehensions,
-  conditional expressions, chained comparisons, slices with a step, `while`, `global`, `del`, `yield`, classes.
+  evaluated too early; likewise the right operand of `and` / `or` when it contains an action); default arguments that are
+  not literals; `*args` / `**kwargs`, decorators, lambda, comprehensions, chained comparisons, slices with a step,
+  `while ... else`, `global`, `del`, `yield`, classes.
 Not kept: exception messages (their argument expressions are still evaluated), what logging prints, closing of files /
 sessions at the end of a `with` block.
 """
@@ -79,6 +97,10 @@ F = ("abs", "F")
 T64 = ("abs", "T")
 TD = ("abs", "TD")
 VEC = ("abs", "Vec")
+UTC = ("abs", "UTC")
+FN = ("abs", "Fn")
+FFN = ("fn", (F,), F)    # a callable argument `fun`: float -> float, may raise
+NPV = "npval"          # a tagged numpy / datetime value: `Np.Val F` of the prelude
 
 
 def opt(t):
@@ -106,9 +128,15 @@ def lean_type(t):
         return "(FileArg IO)"
     if t == "response":
         return "Response"
+    if t == NPV:
+        return "(Np.Val F)"
+    if t == "tz":
+        return "Np.Tz"
     if isinstance(t, tuple):
         if t[0] == "abs":
             return t[1]
+        if t[0] == "fn":
+            return "(" + " → ".join([lean_type(x) for x in t[1]] + ["M " + lean_type(t[2])]) + ")"
         if t[0] == "opt":
             return "(Option %s)" % lean_type(t[1])
         if t[0] == "list":
@@ -131,6 +159,8 @@ INHABITED_NEEDED = set()      # type variables for which a hoisted declaration n
 def type_vars(t, acc):
     if t == "filearg":
         acc.add("IO")
+    if t == NPV:
+        acc.add("F")
     if isinstance(t, tuple):
         if t[0] == "abs":
             acc.add(t[1])
@@ -140,6 +170,10 @@ def type_vars(t, acc):
         elif t[0] == "self":
             for v in SELF_TVARS[t[1]]:
                 acc.add(v)
+        elif t[0] == "fn":
+            for x in t[1]:
+                type_vars(x, acc)
+            type_vars(t[2], acc)
         else:
             for x in t[1:]:
                 type_vars(x, acc)
@@ -159,6 +193,10 @@ def placeholder(t):
         return "false"
     if t == "filearg":
         return "FileArg.none"
+    if t == NPV:
+        return "(Np.Val.memoryview : Np.Val F)"
+    if t == "tz":
+        return "Np.Tz.utc"
     if isinstance(t, tuple):
         if t[0] in ("list", "dict", "iter"):
             return "([] : %s)" % lean_type(t)
@@ -309,6 +347,9 @@ CUT_CALLS = {
                           "`_get_first_tle(uris, open_func, platform)` (cut point; tied separately)",
                           argnames=["uris", "open_func", "platform"]),
 }
+CUT_CALLS["_get_min_bounded"] = Ext("get_min_bounded", [FFN, F, F, F], F, ["Exception"],
+                                     "`_get_min_bounded(fun, start, end, tol)` (scipy's bounded Brent minimiser)",
+                                     argnames=["fun", "start", "end", "tol"])
 ABS_METHODS = {
     ("Keplerians", "calculate"): Ext("keplerians_calculate", [("abs", "Keplerians"), ("abs", "TimeArg")], ("abs", "Kep"), ["Exception"],
                                      "`kep.calculate(utc_time)` on the `_Keplerians` object created for this call (the kernel: T-C)",
@@ -349,6 +390,9 @@ SELF_METHOD_EXTS = {
     ("Orbital", "get_position"): Ext("get_position", [T64], ("tuple", (VEC, VEC)), ["Exception"],
                                      "`self.get_position(t, normalize=False)`: (position, velocity) in km, km/s (the SGP4 kernel, "
                                      "tied by T-C); as a parameter it does not touch the cache slots", kwargs={"normalize": "False"}),
+    ("Orbital", "get_lonlatalt"): Ext("get_lonlatalt", [UTC], ("tuple", (F, F, F)), ["Exception"],
+                                      "`self.get_lonlatalt(utc_time)`: (longitude, latitude in degrees, altitude in km) (the "
+                                      "kernel: T-C)"),
     ("Orbital", "get_last_an_time"): Ext("get_last_an_time", [T64], T64, ["Exception"],
                                          "`self.get_last_an_time(t)` (cut point; tied separately); does not touch the cache slots"),
 }
@@ -398,8 +442,6 @@ CUTS += [
      Ext("config_spacetrack_password", [("abs", "Config")], "str", ["KeyError", "TypeError"],
          "the expression `config[\"downloaders\"][\"fetch_spacetrack\"][\"password\"]`")),
 ]
-UTC = ("abs", "UTC")
-FN = ("abs", "Fn")
 CUTS += [
     # --- Orbital.get_next_passes: the numeric kernels, at the granularity of lean/PV/Model/Passes.lean
     ("_A + np.array([dt.timedelta(minutes=minutes) for minutes in range(_B * 60)])",
@@ -425,6 +467,10 @@ CUTS += [
     ("np.argmax(_A)", Ext("np_argmax", [lst(F)], "int", ["ValueError"], "`np.argmax(xs)`: index of the first maximum (ValueError on an empty array)")),
 ]
 CUTS += [
+    ("_A + dt.timedelta(hours=_B)",
+     Ext("add_hours", [UTC, F], UTC, ["OverflowError", "ValueError"], "`t + dt.timedelta(hours=h)`")),
+]
+CUTS += [
     ("np.datetime64(_get_tz_unaware_utctime(_A)) + np.timedelta64(0, 'us')",
      Ext("lift_time_to_us", [("abs", "TimeArg")], T64, ["ValueError"],
          "`np.datetime64(_get_tz_unaware_utctime(t)) + np.timedelta64(0, \"us\")`: the instant at (at least) microsecond resolution")),
@@ -439,6 +485,22 @@ GLOBALS["SGDP4_ZERO_ECC"] = Ext("SGDP4_ZERO_ECC", [], "int", [], "module constan
 GLOBALS["SGDP4_NEAR_NORM"] = Ext("SGDP4_NEAR_NORM", [], "int", [], "module constant `SGDP4_NEAR_NORM`")
 GLOBALS["PLATFORM_VALUES"] = Ext("PLATFORM_VALUES", [], "str", [], "module constant `PLATFORM_VALUES` (SQL text)")
 GLOBALS["PLATFORM_NAMES_TABLE"] = Ext("PLATFORM_NAMES_TABLE", [], "str", [], "module constant `PLATFORM_NAMES_TABLE` (SQL text)")
+# operations of the prelude on tagged numpy / datetime values (`Np.Val F`): an expression of exactly this shape whose holes
+# have the listed types is the prelude function (not a parameter: its meaning is defined in PV/Py/Prelude.lean)
+NP_PATTERNS = [
+    ("np.datetime_data(_A.dtype)[0]", "Np.datetimeUnit", [NPV], "str", True, ""),
+    ("np.asanyarray(_A, dtype=np.timedelta64)", "Np.asanyarrayTimedelta", [NPV], NPV, True, ""),
+    ("np.asarray(_A, like=_B)", "Np.asarrayLike", [NPV, NPV], NPV, True, ""),
+    ("type(_A)(_B)", "Np.callType", [NPV, NPV], NPV, True, ""),
+    ("_A.__class__(_B)", "Np.callType", [NPV, NPV], NPV, True, ""),
+    ("_A.replace(tzinfo=None)", "Np.replaceTzinfoNone", [NPV], NPV, True, ""),
+    ("_A.tzinfo", "Np.tzinfo", [NPV], ("opt", "tz"), True, ""),
+    ("_A.data", "Np.attrData", [NPV], NPV, True, ""),
+    ("dt.timezone.utc", "Np.Tz.utc", [], "tz", False, ""),
+    ("isinstance(_A, float)", "Np.isinstanceFloat", [NPV], "bool", False, ""),
+    ("isinstance(_A, dt.datetime)", "Np.isinstanceDatetime", [NPV], "bool", False, ""),
+    ("np.datetime64(_A)", "Np.datetime64", [NPV], NPV, True, ""),
+]
 # key functions accepted for max(..., key=<name>)
 KEYFUNCS = {
     "os.path.getctime": Ext("os_path_getctime", ["str"], ("abs", "K"), [], "`os.path.getctime(p)` (a number; only compared)"),
@@ -462,7 +524,8 @@ class Const:
 
 class FnSpec:
     def __init__(self, module, qualname, params, cls=None, int_is_cut=False, special=None, lean=None, ret=None, cuts=(),
-                 locals_=None, maybe_unbound=()):
+                 locals_=None, maybe_unbound=(), npvals=False):
+        self.npvals = npvals                  # `np.timedelta64(k, unit)` is a tagged value (`Np.Val`), not a `TimeOps` term
         self.maybe_unbound = set(maybe_unbound)   # locals that may be read while unbound (UnboundLocalError): held as Option
         self.fuel = 0
         self.locals = locals_ or {}           # declared types of locals whose first value (`{}`) does not determine them
@@ -518,6 +581,15 @@ SPEC = [
            locals_={"risetime": opt(UTC), "risemins": opt(F)}),
     FnSpec("tlefile", "SQLiteTLE.__init__", ["str", ("dict", "int", "str"), ("abs", "WriterConfig")], cls="SQLiteTLE"),
     FnSpec("tlefile", "SQLiteTLE.update_db", [("abs", "TleObj"), "str"], cls="SQLiteTLE"),
+    # third wave: which branch for which kind of time value, and the tick arithmetic in each (C08, C12)
+    FnSpec("__init__", "dt2np", [NPV], npvals=True),
+    FnSpec("astronomy", "_days", [NPV], npvals=True),
+    FnSpec("astronomy", "jdays2000", [NPV], npvals=True),
+    FnSpec("astronomy", "jdays", [NPV], npvals=True),
+    FnSpec("astronomy", "_float_to_sibling_result", [NPV, NPV], npvals=True),
+    FnSpec("orbital", "_get_tz_unaware_utctime", [NPV], npvals=True),
+    FnSpec("orbital", "Orbital.utc2local", [UTC], cls="Orbital"),
+    FnSpec("orbital", "_get_max_parab", [FFN, F, F, F], cuts=["_get_min_bounded"]),
     FnSpec("tlefile", "Downloader.fetch_spacetrack", [], cls="Downloader"),
     FnSpec("tlefile", "Downloader.fetch_plain_tle", [], cls="Downloader",
            locals_={"tles": ("dict", "str", lst(("abs", "E")))}),
@@ -634,6 +706,8 @@ class FnTrans:
         self.float_ops = False
         self.float_arith = False
         self.time_ops = False
+        self.fp_raise = False    # inside `with np.errstate(invalid="raise")`
+        self.fp_used = False
         self.stateful = False
         self.writes_self = False
         self.self_assigned = set()
@@ -858,6 +932,8 @@ class FnTrans:
         if ty == F and e.ty == "int":
             self.float_ops = True
             return E("(FloatOps.ofInt %s)" % paren(e.sub()), ty)
+        if ty == NPV and e.ty == F:
+            return E("(Np.Val.pyfloat %s)" % paren(e.sub()), ty)
         raise self.err(node, "a value of type %s where %s is expected" % (e.ty, ty))
 
     def want(self, e, ty, node, attr=False):
@@ -897,7 +973,7 @@ class FnTrans:
         if e.ty in ("str", "int", "filearg") or (isinstance(e.ty, tuple) and e.ty[0] in ("list", "opt", "dict")):
             if isinstance(e.ty, tuple) and e.ty[0] == "opt":
                 t = e.ty[1]
-                if not (t in ("str", "int", "bool") or (isinstance(t, tuple) and t[0] in ("list",))):
+                if not (t in ("str", "int", "bool", "tz") or (isinstance(t, tuple) and t[0] in ("list",))):
                     raise self.err(node, "truth value of %s" % (e.ty,))
             return E("Py.truthy %s" % paren(e.sub()), "bool")
         raise self.err(node, "truth value of a %s" % (e.ty,))
@@ -925,6 +1001,26 @@ class FnTrans:
                     args.append(self.want(a_, t, node))
                 self.use_ext(ext)
                 return E("%s %s" % (ext.param, " ".join(paren(a.sub()) for a in args)), ext.ret, ext.mon)
+        for pat, fn, tys, ret, mon, _ in NP_PATTERNS:
+            holes = {}
+            if match_pattern(ast.parse(pat, mode="eval").body, node, holes):
+                saved = (list(self.ext_used), self.tmp)
+                try:
+                    args = [self.expr(holes[k_]) for k_ in sorted(holes)]
+                except TransError:
+                    self.ext_used, self.tmp = saved
+                    continue
+                if [a_.ty for a_ in args] != tys:
+                    # a Python float where a tagged value is expected is the tagged Python float
+                    if all(a_.ty == t_ or (a_.ty == F and t_ == NPV) for a_, t_ in zip(args, tys)):
+                        args = [self.coerce(a_, t_, node) for a_, t_ in zip(args, tys)]
+                    else:
+                        self.ext_used, self.tmp = saved
+                        continue
+                code = " ".join([fn] + [paren(a_.sub()) for a_ in args])
+                if not tys and ret == "tz":
+                    return E(fn, ret)
+                return E(code, ret, mon)
         m = getattr(self, "e_" + type(node).__name__, None)
         if m is None:
             raise self.err(node, "no rule for expression " + type(node).__name__)
@@ -1095,9 +1191,22 @@ class FnTrans:
                 base = self.expr(n.left)
                 if base.ty == F:
                     self.float_arith = True
+                    if self.fp_raise:
+                        return self.fp_op("powNat", base, E("%d" % e, "nat"))
                     return E("(FloatArith.powNat %s %d)" % (paren(base.sub()), e), F)
             raise self.err(n, "power other than <int literal> ** <negative int literal> or <float> ** <non-negative int literal>")
         l, r = self.expr(n.left), self.expr(n.right)
+        # tagged numpy values: the prelude's interpreted operations
+        if NPV in (l.ty, r.ty) and {l.ty, r.ty} <= {NPV, F}:
+            fn = {ast.Sub: "sub", ast.Div: "div", ast.Add: "add"}.get(type(op))
+            if fn is None:
+                raise self.err(n, "operator %s on tagged numpy values" % type(op).__name__)
+            l, r = self.coerce(l, NPV, n), self.coerce(r, NPV, n)
+            if fn == "div":
+                self.float_ops = True
+            if fn in ("div", "add"):
+                self.float_arith = True
+            return E("Np.%s %s %s" % (fn, paren(l.sub()), paren(r.sub())), NPV, True)
         # numpy datetime64 / timedelta64 arithmetic (uninterpreted: class TimeOps)
         if T64 in (l.ty, r.ty) or TD in (l.ty, r.ty):
             self.time_ops = True
@@ -1113,6 +1222,8 @@ class FnTrans:
         if isinstance(op, (ast.Add, ast.Div)) and F in (l.ty, r.ty) and {l.ty, r.ty} <= {F, "int"}:
             self.float_arith = True
             l, r = self.coerce(l, F, n), self.coerce(r, F, n)
+            if self.fp_raise:
+                return self.fp_op("add" if isinstance(op, ast.Add) else "div", l, r)
             return E("(FloatArith.%s %s %s)" % ("add" if isinstance(op, ast.Add) else "div", paren(l.sub()), paren(r.sub())), F)
         if isinstance(op, ast.Add):
             if l.ty == "int" and r.ty == "int":
@@ -1129,6 +1240,9 @@ class FnTrans:
             if F in (l.ty, r.ty):
                 self.float_ops = True
                 l, r = self.coerce(self.unopt(l, n), F, n), self.coerce(self.unopt(r, n), F, n)
+                if self.fp_raise:
+                    self.float_arith = True
+                    return self.fp_op("sub", l, r)
                 return E("(FloatOps.sub %s %s)" % (paren(l.sub()), paren(r.sub())), F)
         if isinstance(op, ast.Mult):
             if l.ty == "int" and r.ty == "int":
@@ -1136,6 +1250,9 @@ class FnTrans:
             if F in (l.ty, r.ty):
                 self.float_ops = True
                 l, r = self.coerce(self.unopt(l, n), F, n), self.coerce(self.unopt(r, n), F, n)
+                if self.fp_raise:
+                    self.float_arith = True
+                    return self.fp_op("mul", l, r)
                 return E("(FloatOps.mul %s %s)" % (paren(l.sub()), paren(r.sub())), F)
         if isinstance(op, ast.Mod):
             if l.ty == "int" and r.ty == "int":
@@ -1144,6 +1261,13 @@ class FnTrans:
             if l.ty == "int" and r.ty == "int":
                 return E("Py.floordiv %s %s" % (paren(l.sub()), paren(r.sub())), "int", True)
         raise self.err(n, "operator %s on %s and %s" % (type(op).__name__, l.ty, r.ty))
+
+    def fp_op(self, op, l, r):
+        """a float operation inside `with np.errstate(invalid="raise")`: FloatingPointError when numpy signals `invalid`"""
+        self.float_ops = True
+        self.float_arith = True
+        self.fp_used = True
+        return E("Fp.%s %s %s" % (op, paren(l.sub()), paren(r.sub())), F, True)
 
     def unopt(self, e, node):
         if isinstance(e.ty, tuple) and e.ty[0] == "opt":
@@ -1165,7 +1289,18 @@ class FnTrans:
             else:
                 raise self.err(n, "`is None` on a value of type %s (never None in the declared typing)" % (l.ty,))
             return E(code if isinstance(op, ast.Is) else "(!%s)" % code, "bool")
+        if isinstance(op, (ast.In, ast.NotIn)) and isinstance(rn, (ast.Tuple, ast.List)) and rn.elts and \
+                all(isinstance(x, ast.Constant) and isinstance(x.value, str) for x in rn.elts):
+            # membership in a literal tuple / list of strings: `==` against each, in order (str.__eq__ never raises)
+            l = self.strlike(self.expr(ln), n)
+            code = "[%s].contains %s" % (", ".join(str_lit(x.value) for x in rn.elts), paren(l.sub()))
+            return E("(!%s)" % code if isinstance(op, ast.NotIn) else code, "bool")
         l, r = self.expr(ln), self.expr(rn)
+        if isinstance(op, (ast.Eq, ast.NotEq)) and {l.ty, r.ty} <= {"tz", ("opt", "tz")}:
+            # tzinfo objects: `None != tz` is True; two tzinfo objects compare by the prelude's equality of `Np.Tz`
+            sym = "==" if isinstance(op, ast.Eq) else "!="
+            l, r = self.coerce(l, ("opt", "tz"), n), self.coerce(r, ("opt", "tz"), n)
+            return E("(%s %s %s)" % (l.sub(), sym, r.sub()), "bool")
         if isinstance(op, (ast.In, ast.NotIn)):
             neg = isinstance(op, ast.NotIn)
             if isinstance(r.ty, tuple) and r.ty[0] == "dict":
@@ -1210,7 +1345,7 @@ class FnTrans:
         is_and = isinstance(n.op, ast.And)
         acc = es[-1]
         for e in reversed(es[:-1]):
-            if acc.mon:
+            if acc.mon or "←" in acc.code:
                 # the right operand may raise: it must not be evaluated when the left one decides
                 rhs = "(do return %s)" % acc.sub()
                 if is_and:
@@ -1222,7 +1357,16 @@ class FnTrans:
         return acc
 
     def e_IfExp(self, n):
-        raise self.err(n, "conditional expression")
+        """`a if c else b`: only the chosen operand is evaluated"""
+        c = self.truthy(self.expr(n.test), n.test)
+        a, b = self.expr(n.body), self.expr(n.orelse)
+        t = self.join(a.ty if a.ty != "char" else "str", b.ty if b.ty != "char" else "str")
+        a, b = self.coerce(a, t, n), self.coerce(b, t, n)
+        if not (a.mon or b.mon or "←" in a.code or "←" in b.code):
+            return E("(if %s then %s else %s)" % (c.sub(), a.code, b.code), t)
+        def arm(x):
+            return x.code if x.mon and "←" not in x.code else "(do return %s)" % x.sub()
+        return E("(if %s then %s else %s)" % (c.sub(), arm(a), arm(b)), t, True)
 
     def e_JoinedStr(self, n):
         raise self.err(n, "f-string outside a message")
@@ -1247,12 +1391,36 @@ class FnTrans:
                 self.use_ext(ext)
                 return E("%s %s" % (ext.param, paren(a.sub())), "int", True)
             return E("Py.int %s" % paren(a.sub()), "int", True)
+        if fname == "float" and len(args) == 1 and not kws:
+            a = self.expr(args[0])
+            if a.ty == F:
+                return a         # `float(x)` of a float: the Python float of the same value
+            if a.ty == "int":
+                return self.coerce(a, F, n)
+        if isinstance(f, ast.Name) and isinstance(self.env.get(f.id), tuple) and self.env[f.id][0] == "fn" and not kws:
+            ft = self.env[f.id]
+            if f.id not in self.assigned or len(args) != len(ft[1]):
+                raise self.err(n, "call of the callable argument")
+            es = [self.coerce_arg(self.expr(a), t, a) for a, t in zip(args, ft[1])]
+            return E("%s %s" % (self.ln(f.id), " ".join(paren(e.sub()) for e in es)), ft[2], True)
         if fname in ("np.abs", "abs") and len(args) == 1 and not kws:
             a = self.expr(args[0])
             if a.ty == F:
                 self.float_arith = True
                 return E("(FloatArith.abs %s)" % paren(a.sub()), F)
             raise self.err(n, "abs of a %s" % (a.ty,))
+        if fname == "hasattr" and len(args) == 2 and not kws and isinstance(args[1], ast.Constant) \
+                and isinstance(args[1].value, str):
+            a = self.expr(args[0])
+            if a.ty != NPV:
+                raise self.err(n, "hasattr on a %s" % (a.ty,))
+            return E("Np.hasattr %s %s" % (paren(a.sub()), str_lit(args[1].value)), "bool", True)
+        if fname == "np.datetime64" and len(args) == 1 and not kws and isinstance(args[0], ast.Constant) \
+                and isinstance(args[0].value, str) and self.spec.npvals:
+            return E("Np.datetime64Iso %s" % str_lit(args[0].value), NPV, True)
+        if fname == "np.timedelta64" and len(args) == 2 and not kws and self.const_int(args[0]) is not None \
+                and isinstance(args[1], ast.Constant) and isinstance(args[1].value, str) and self.spec.npvals:
+            return E("(Np.timedelta64 (%d : Int) %s)" % (self.const_int(args[0]), str_lit(args[1].value)), NPV)
         if fname == "np.timedelta64" and len(args) == 2 and not kws and self.const_int(args[0]) is not None \
                 and isinstance(args[1], ast.Constant) and isinstance(args[1].value, str):
             self.time_ops = True
@@ -1430,6 +1598,10 @@ class FnTrans:
             return E("%s %s" % (ext.param, " ".join(paren(e.sub()) for e in es)), ext.ret, ext.mon)
         if kws:
             raise self.err(n, "keyword arguments to a method")
+        if recv.ty == NPV:
+            if m == "astype" and len(args) == 1 and isinstance(args[0], ast.Constant) and isinstance(args[0].value, str):
+                return E("Np.astype %s %s" % (paren(recv.sub()), str_lit(args[0].value)), NPV, True)
+            raise self.err(n, "no rule for method .%s on a tagged numpy value" % m)
         if isinstance(recv.ty, tuple) and recv.ty[0] == "dict":
             if m == "get" and len(args) == 2:
                 k = self.coerce(self.expr(args[0]), recv.ty[1], n)
@@ -1516,6 +1688,23 @@ class FnTrans:
         if chosen is None:
             raise self.err(n, "no specialisation of the callee fits this call")
         d = chosen
+        if d.spec.module != self.spec.module and not is_method:
+            # the name must be bound by `from pyorbital[.module] import name` and by nothing else at module level
+            want_mod = "pyorbital" if d.spec.module == "__init__" else "pyorbital." + d.spec.module
+            binders = []
+            for st in self.mod.tree.body:
+                if isinstance(st, ast.ImportFrom):
+                    for al in st.names:
+                        if (al.asname or al.name) == qual:
+                            binders.append((st.module, al.name, st.level))
+                elif isinstance(st, (ast.FunctionDef, ast.ClassDef)) and st.name == qual:
+                    binders.append(("def", qual, 0))
+                elif isinstance(st, (ast.Assign, ast.AugAssign, ast.AnnAssign)):
+                    for x in ast.walk(st):
+                        if isinstance(x, ast.Name) and x.id == qual and isinstance(x.ctx, ast.Store):
+                            binders.append(("assign", qual, 0))
+            if binders != [(want_mod, qual, 0)]:
+                raise self.err(n, "the callee `%s` is not bound (only) by `from %s import %s` in this module" % (qual, want_mod, qual))
         for x in d.ext_params:
             self.use_ext(x)
         if d.float_ops:
@@ -1608,6 +1797,28 @@ class FnTrans:
             return bool(s.orelse) and self.terminates(s.body) and self.terminates(s.orelse)
         if isinstance(s, ast.With):
             return self.terminates(s.body)
+        if isinstance(s, ast.Try) and not s.finalbody and not s.orelse:
+            return self.terminates(s.body) and all(self.terminates(h.body) for h in s.handlers)
+        if isinstance(s, ast.While) and isinstance(s.test, ast.Constant) and s.test.value is True and not s.orelse \
+                and not self.has_break(s.body):
+            return True
+        return False
+
+    def has_break(self, stmts):
+        """a `break` that belongs to the loop whose body this is"""
+        for x in stmts:
+            if isinstance(x, ast.Break):
+                return True
+            if isinstance(x, (ast.For, ast.While)):
+                if self.has_break(x.orelse):
+                    return True
+                continue
+            for fld in ("body", "orelse", "finalbody"):
+                if self.has_break(getattr(x, fld, []) or []):
+                    return True
+            for h in getattr(x, "handlers", []) or []:
+                if self.has_break(h.body):
+                    return True
         return False
 
     def jumps(self, stmts):
@@ -1619,6 +1830,8 @@ class FnTrans:
             return True
         if isinstance(s, ast.If):
             return bool(s.orelse) and self.jumps(s.body) and self.jumps(s.orelse)
+        if isinstance(s, ast.Try) and not s.finalbody and not s.orelse:
+            return self.jumps(s.body) and all(self.jumps(h.body) for h in s.handlers)
         return False
 
     def block(self, stmts, depth, top=False):
@@ -2141,6 +2354,20 @@ class FnTrans:
         go on).  The condition is evaluated exactly as often as Python evaluates it on the passes that are made."""
         if s.orelse:
             raise self.err(s, "while ... else")
+        if isinstance(s.test, ast.Constant) and s.test.value is True:
+            # `while True:` is left only by return / raise / break: no condition, no `done` flag; when the fuel runs
+            # out the result is the marker
+            k = len(self.fuels) + 1
+            fuel = "fuel_%d" % k
+            self.fuels.append(fuel)
+            a0 = set(self.assigned)
+            sa0 = set(self.self_assigned)
+            self.loop_depth += 1
+            body = self.block(s.body, depth + 1)
+            self.loop_depth -= 1
+            self.assigned = a0
+            self.self_assigned = sa0
+            return [self.ind(depth, "for _ in List.replicate %s () do" % fuel)] + body + [self.ind(depth, "throw Exc.outOfFuel")]
         k = len(self.fuels) + 1
         fuel = "fuel_%d" % k
         self.fuels.append(fuel)
@@ -2187,7 +2414,7 @@ class FnTrans:
             for k_, st in enumerate(inner):
                 if isinstance(st, (ast.Assign, ast.AugAssign)) and k_ != len(inner) - 1:
                     raise self.err(s, "an assignment inside a guarded transaction block that is not its last statement")
-        elif not isinstance(s.body[0], (ast.Assign, ast.Expr)):
+        elif not isinstance(s.body[0], (ast.Assign, ast.Expr, ast.Return)):
             raise self.err(s, "try body that is not a simple statement")
         body_names = {st.targets[0].id for st in s.body if multi}
         a0 = set(self.assigned)
@@ -2212,6 +2439,8 @@ class FnTrans:
         for x in body_ext:
             self.use_ext(x)
         o1, s1 = set(self.assigned), set(self.self_assigned)
+        if self.jumps(s.body):
+            o1, s1 = None, None
         # the handler's class must not have a proper subclass among what the body can raise
         raised = set(PRELUDE_RAISES)
         for x in body_ext:
@@ -2242,7 +2471,7 @@ class FnTrans:
             o2 = set(o2) | (a0 & body_names)
         self.assigned = self.merge([o1, o2])
         live = [x for x in (s1, s2) if x is not None]
-        self.self_assigned = set.intersection(*live)
+        self.self_assigned = set.intersection(*live) if live else set(sa0)
         ev = self.fresh("exc")
         head, roll = [], []
         if txn:
@@ -2275,6 +2504,16 @@ class FnTrans:
                      self.ind(depth, "try")] + (body or [self.ind(depth + 1, "pure ()")]) +
                     [self.ind(depth, "catch %s =>" % ev), self.ind(depth + 1, "Py.heapSet %s" % snap),
                      self.ind(depth + 1, "throw %s" % ev)])
+        if len(s.items) == 1 and s.items[0].optional_vars is None and \
+                ast.unparse(s.items[0].context_expr) == "np.errstate(invalid='raise')":
+            # numpy float operations in the block raise FloatingPointError when they signal `invalid` (leaving the
+            # block restores the previous state: nothing the translation keeps)
+            if self.fp_raise:
+                raise self.err(s, "nested np.errstate")
+            self.fp_raise = True
+            body = self.block_inline(s.body, depth)
+            self.fp_raise = False
+            return body
         if len(s.items) != 1 or not isinstance(s.items[0].context_expr, ast.Call) or \
                 not isinstance(s.items[0].optional_vars, ast.Name):
             raise self.err(s, "with statement of this shape")
@@ -2313,7 +2552,7 @@ def _as_load(t):
 
 
 FNREF_IMPORTS = {"urlopen"}
-NAMED_HANDLERS = {"requests.exceptions.Timeout", "sqlite3.IntegrityError"}
+NAMED_HANDLERS = {"requests.exceptions.Timeout", "sqlite3.IntegrityError", "FloatingPointError"}
 NAMED_NOT_SUBCLASS = {"ValueError": {"xml.ParseError", "requests.exceptions.Timeout", "OverflowError"}}
 
 
@@ -2349,6 +2588,8 @@ def signature(ft, lean_name):
         b.append("[FloatArith F]")
     if ft.time_ops:
         b.append("[TimeOps T TD]")
+    if ft.fp_used:
+        b.append("[FloatInvalid F]")
     for v in sorted(ft.inhabited):
         b.append("[Inhabited %s]" % v)
     if "K" in tv:
